@@ -1,0 +1,37 @@
+//go:build verif
+
+package dkg
+
+import (
+	"time"
+
+	"github.com/ipfs/go-log/v2"
+	"github.com/keep-network/keep-common/pkg/persistence"
+	"github.com/keep-network/keep-core/pkg/generator"
+)
+
+// Verification hook (build tag verif): re-exports existing identifiers only.
+
+// VerifC45NewTssPreParamsPool creates the real TSS pre-parameters pool (its
+// generator worker is registered in the given scheduler) and returns the
+// function reading the number of parameters in the pool.
+func VerifC45NewTssPreParamsPool(
+	logger log.StandardLogger,
+	scheduler *generator.Scheduler,
+	handle persistence.BasicHandle,
+	poolSize int,
+	generationTimeout time.Duration,
+	generationDelay time.Duration,
+	generationConcurrency int,
+) func() int {
+	pool := newTssPreParamsPool(
+		logger,
+		scheduler,
+		handle,
+		poolSize,
+		generationTimeout,
+		generationDelay,
+		generationConcurrency,
+	)
+	return pool.ParametersCount
+}
